@@ -1080,3 +1080,98 @@ Proof.
       * destruct (IH rest') as (m & -> & Hm); [cbn [length] in Hl; lia|]. cbn [bind].
         eexists. split; [reflexivity|]. constructor; [congruence|assumption].
 Qed.
+(* ---- the script-stage flaw is the first error met reading instructions from the left ---- *)
+
+(* a data push, declaratively: a direct push of len d bytes, or PUSHDATA1/2/4
+   with a k-byte little-endian length (not necessarily minimal) *)
+Definition is_push (bs d rest : list N) : Prop :=
+  (len d <= OP_PUSHBYTES_75 /\ bs = len d :: d ++ rest) \/
+  exists op k lb, ((op = OP_PUSHDATA1 /\ k = 1) \/ (op = OP_PUSHDATA2 /\ k = 2) \/ (op = OP_PUSHDATA4 /\ k = 4)) /\
+    len lb = k /\ le_value lb = len d /\ bs = op :: lb ++ d ++ rest.
+
+(* a push opcode whose length bytes or data run past the end of the script *)
+Definition truncated_push (bs : list N) : Prop :=
+  exists op rest, bs = op :: rest /\
+  ((op <= OP_PUSHBYTES_75 /\ len rest < op) \/
+   exists k, ((op = OP_PUSHDATA1 /\ k = 1) \/ (op = OP_PUSHDATA2 /\ k = 2) \/ (op = OP_PUSHDATA4 /\ k = 4)) /\
+     (len rest < k \/ exists lb r, rest = lb ++ r /\ len lb = k /\ len r < le_value lb)).
+
+Lemma push_data_cases k bs :
+  match push_data k bs with
+  | SEnd => False
+  | SErr => len bs < k \/ exists lb r, bs = lb ++ r /\ len lb = k /\ len r < le_value lb
+  | SInstr (IOp _) _ => False
+  | SInstr (IPush d) rest => exists lb, len lb = k /\ le_value lb = len d /\ bs = lb ++ d ++ rest
+  end.
+Proof.
+  unfold push_data. destruct (take_opt k bs) as [[lb r]|] eqn:E1.
+  - apply take_opt_Some in E1. destruct E1 as [-> Hl].
+    destruct (take_opt (le_value lb) r) as [[d r']|] eqn:E2.
+    + apply take_opt_Some in E2. destruct E2 as [-> Hd]. exists lb. auto.
+    + apply take_opt_None in E2. right. exists lb, r. auto.
+  - apply take_opt_None in E1. left. assumption.
+Qed.
+
+Lemma next_instr_cases bs :
+  match next_instr bs with
+  | SEnd => bs = []
+  | SErr => truncated_push bs
+  | SInstr (IOp o) rest => bs = o :: rest /\ OP_PUSHDATA4 < o
+  | SInstr (IPush d) rest => is_push bs d rest
+  end.
+Proof.
+  destruct bs as [|byte rest]; [reflexivity|]. cbn [next_instr].
+  destruct (N.leb_spec byte OP_PUSHBYTES_75) as [H75|H75].
+  { destruct (take_opt byte rest) as [[d r]|] eqn:E.
+    - apply take_opt_Some in E. destruct E as [-> Hl]. left. rewrite Hl. auto.
+    - apply take_opt_None in E. exists byte, rest. split; [reflexivity|]. left. auto. }
+  destruct (N.eqb_spec byte OP_PUSHDATA1) as [->|N1].
+  { pose proof (push_data_cases 1 rest) as H. destruct (push_data 1 rest) as [| |[d|o] r]; try contradiction.
+    - exists OP_PUSHDATA1, rest. split; [reflexivity|]. right. exists 1. auto.
+    - destruct H as (lb & H1 & H2 & ->). right. exists OP_PUSHDATA1, 1, lb. auto 10. }
+  destruct (N.eqb_spec byte OP_PUSHDATA2) as [->|N2].
+  { pose proof (push_data_cases 2 rest) as H. destruct (push_data 2 rest) as [| |[d|o] r]; try contradiction.
+    - exists OP_PUSHDATA2, rest. split; [reflexivity|]. right. exists 2. auto 10.
+    - destruct H as (lb & H1 & H2 & ->). right. exists OP_PUSHDATA2, 2, lb. auto 10. }
+  destruct (N.eqb_spec byte OP_PUSHDATA4) as [->|N4].
+  { pose proof (push_data_cases 4 rest) as H. destruct (push_data 4 rest) as [| |[d|o] r]; try contradiction.
+    - exists OP_PUSHDATA4, rest. split; [reflexivity|]. right. exists 4. auto 10.
+    - destruct H as (lb & H1 & H2 & ->). right. exists OP_PUSHDATA4, 4, lb. auto 10. }
+  split; [reflexivity|]. unfold OP_PUSHBYTES_75, OP_PUSHDATA1, OP_PUSHDATA2, OP_PUSHDATA4 in *. lia.
+Qed.
+
+(* what the loop of `payload` computes after OP_RETURN OP_13: pushes are
+   concatenated from the left; the first non-push opcode gives Opcode, the first
+   truncated push gives InvalidScript, whichever comes first *)
+Inductive script_shape : list N -> Payload -> Prop :=
+| SS_end : script_shape [] (Valid [])
+| SS_opcode o rest : OP_PUSHDATA4 < o -> script_shape (o :: rest) (Invalid Opcode)
+| SS_truncated bs : truncated_push bs -> script_shape bs (Invalid InvalidScript)
+| SS_push_valid bs d rest p : is_push bs d rest -> script_shape rest (Valid p) ->
+    script_shape bs (Valid (d ++ p))
+| SS_push_invalid bs d rest f : is_push bs d rest -> script_shape rest (Invalid f) ->
+    script_shape bs (Invalid f).
+
+Lemma collect_shape : forall fuel bs, (length bs <= fuel)%nat ->
+  exists p, collect fuel bs = Ok p /\ script_shape bs p.
+Proof.
+  induction fuel as [|f IH]; intros bs Hl.
+  - destruct bs; [|cbn [length] in Hl; lia]. eexists. split; [reflexivity|constructor].
+  - cbn [collect]. pose proof (next_instr_cases bs) as Hc.
+    destruct (next_instr bs) as [| |[d|o] rest] eqn:E.
+    + subst bs. eexists. split; [reflexivity|constructor].
+    + eexists. split; [reflexivity|]. apply SS_truncated. assumption.
+    + apply next_instr_shorter in E. destruct (IH rest ltac:(lia)) as (p & Hp & Hs). rewrite Hp.
+      destruct p as [pl|fl]; eexists; (split; [reflexivity|]).
+      * eapply SS_push_valid; eassumption.
+      * eapply SS_push_invalid; eassumption.
+    + destruct Hc as [-> Ho]. eexists. split; [reflexivity|]. constructor. assumption.
+Qed.
+
+(* the first output starting OP_RETURN OP_13 decides, later ones are ignored *)
+Lemma payload_first pre r post : Forall (fun s => ~ starts_magic s) pre ->
+  exists p, payload (pre ++ (OP_RETURN :: MAGIC_NUMBER :: r) :: post) = Ok (Some p) /\ script_shape r p.
+Proof.
+  intros Hpre. rewrite payload_skip by assumption. cbn [payload]. rewrite script_payload_magic.
+  destruct (collect_shape (length r) r (le_n _)) as (p & -> & Hs). cbn [bind]. eauto.
+Qed.
